@@ -107,7 +107,12 @@ def _hw_shapes(ctx, col, np):
     for ax in (0, 1, 2, -1):
         for k in (1, 2):
             axp = ax % 3
-            got = scared.HammingWeight(nb_words=k, expected_dtype='uint16')(a, axis=ax); h = pc16[a]; g = a.shape[axp] // k
+            try:
+                got = scared.HammingWeight(nb_words=k, expected_dtype='uint16')(a, axis=ax)
+            except Exception as e:
+                col.evaluations += 1
+                col.violation('C15/hw/nb_words/raised', 'uint16 shape (2,3,4) axis %d nb_words %d: %s: %s' % (ax, k, type(e).__name__, e), {'axis': ax, 'nb_words': k}); continue
+            h = pc16[a]; g = a.shape[axp] // k
             exp = np.stack([np.take(h, range(i * k, (i + 1) * k), axis=axp).sum(axis=axp) for i in range(g)], axis=axp)
             col.evaluations += 1; col.states += 1; col.transitions += 1; col.nontrivial += 1
             if got.shape != exp.shape or not np.array_equal(got, exp):
